@@ -108,8 +108,15 @@ def corrupt(toks, r):
                     k += 1
                 if k < n and t[k] == '<' and (k - 1) in idx:
                     targets.append(k - 1)       # the template a typedef instantiates
-        if targets and r.random() < 0.5:
+        class_names = {t[j + 1] for j in range(n - 1) if t[j] == 'class'}
+        ctors = [j for j in idx if j + 1 < n and t[j + 1] == '(' and t[j] in class_names and j > 0 and t[j - 1] in (';', '{', '}', '>')]
+        x = r.random()
+        if targets and x < 0.4:
             j = r.choice(targets)
+            t[j] = t[j] + '_zz'
+        elif ctors and x < 0.7:
+            multi = [k for k in ctors if sum(1 for q in ctors if t[q] == t[k]) >= 2]
+            j = r.choice(multi or ctors)  # a constructor that no longer carries the name of its class (while others do)
             t[j] = t[j] + '_zz'
         elif idx:
             j = r.choice(idx)
@@ -122,7 +129,13 @@ def corrupt(toks, r):
         openers = [j for j, x in enumerate(t) if x in ('(', '{', '<')]
         seps = [j for j, x in enumerate(t) if x in (',', ';', '::', ':', '=')]
         x = r.random()
-        if x < 0.4 and closers:
+        words = [j for j in range(1, n - 1) if re.match(r'^[A-Za-z_]\w*$', t[j]) and t[j + 1] == '{' and t[j - 1] in (':', '>')
+                 or (re.match(r'^[A-Za-z_]\w*$', t[j]) and t[j + 1] == '{' and j >= 2 and t[j - 2] in ('class', ':'))]
+        if words and r.random() < 0.25:
+            # a second item where the dialect takes one: `class A : B, C {`, `class A, B {`
+            j = r.choice(words)
+            t[j + 1:j + 1] = [',', r.choice(['Extra', t[j], 'ns::Other<double>'])]
+        elif x < 0.4 and closers:
             t.insert(r.choice(closers), r.choice([',', ',', ';', '::']))
         elif x < 0.6 and openers:
             t.insert(r.choice(openers) + 1, r.choice([',', ';', '::']))
@@ -135,6 +148,43 @@ def corrupt(toks, r):
         i = r.randrange(n - 1)
         t[i:i + 2] = [t[i] + t[i + 1]]
     return kind, t
+
+
+def directed(toks, r):
+    """corruptions aimed at the validation clauses, one of each kind the model allows (deterministic given r)."""
+    t0 = [x for x, _ in toks]
+    n = len(t0)
+    out = []
+    ident = lambda x: re.match(r'^[A-Za-z_]\w*$', x) is not None
+    class_names = {t0[j + 1] for j in range(n - 1) if t0[j] == 'class'}
+    ctors = [j for j in range(1, n - 1) if ident(t0[j]) and t0[j + 1] == '(' and t0[j] in class_names and t0[j - 1] in (';', '{', '}', '>')]
+    multi = [k for k in ctors if sum(1 for q in ctors if t0[q] == t0[k]) >= 2]
+    if multi:
+        t = list(t0)
+        j = r.choice(multi)
+        t[j] = t[j] + '_zz'
+        out.append(('ctor-misnamed', t))
+    targets = []
+    for j, x in enumerate(t0):
+        if x == 'typedef':
+            k = j + 1
+            while k < n and t0[k] not in ('<', ';'):
+                k += 1
+            if k < n and t0[k] == '<' and ident(t0[k - 1]):
+                targets.append(k - 1)
+    if targets:
+        t = list(t0)
+        j = r.choice(targets)
+        t[j] = t[j] + '_zz'
+        out.append(('typedef-target-misspelled', t))
+    bases = [j for j in range(2, n - 1) if ident(t0[j]) and t0[j + 1] == '{' and t0[j - 1] in (':', '>') or
+             (ident(t0[j]) and t0[j + 1] == '{' and t0[j - 1] == '::')]
+    if bases:
+        t = list(t0)
+        j = r.choice(bases)
+        t[j + 1:j + 1] = [',', 'Extra']
+        out.append(('second-base', t))
+    return out
 
 
 def flagged_qualifier_region(tokens_text):
@@ -300,12 +350,18 @@ def run_entry_points(text, sb, acc, budget):
             model, _ = project.project(tree)
             for _, it in S.walk_items(model.items):
                 if it.k == 'Typedef' and len(ref_inst.find_template(model, it.type.ns, it.type.name)) == 0:
-                    undeclared = '::'.join(it.type.ns + (it.type.name,))
+                    undeclared = 'typedef names the undeclared template ' + '::'.join(it.type.ns + (it.type.name,))
                     break
+                if it.k == 'Class':
+                    bad = [m.name for m in it.members if m.k == 'Ctor' and m.name != it.name]
+                    if bad:
+                        # a member without return type that is not named like its class is no constructor
+                        undeclared = 'class %s has a constructor-like member named %s' % (it.name, bad[0])
+                        break
         except Exception:
             undeclared = None
         if undeclared:
-            acc.count('typedef_of_undeclared_template_inputs')
+            acc.count('inputs_that_must_fail_validation')
     # 2..4 generators; file-system clause
     old = sb.root
     os.chdir(sb.cwd)
@@ -339,8 +395,7 @@ def run_entry_points(text, sb, acc, budget):
                 if not accepted:
                     vs.append({'what': '%s succeeded on an input the parser rejects' % name})
                 elif undeclared:
-                    vs.append({'what': '%s succeeded although a typedef names the undeclared template %s '
-                                       '(the declaration was dropped instead of reported)' % (name, undeclared)})
+                    vs.append({'what': '%s succeeded although %s (accepted or dropped instead of reported)' % (name, undeclared)})
                 sb.fill()
                 os.chdir(sb.cwd)
                 open(sb.input, 'w').write(text)
@@ -411,6 +466,7 @@ def worker(ctx):
             variants = [('valid', [x for x, _ in toks])]
             for j in range(ctx.plan['corruptions']):
                 variants.append(corrupt(toks, r))
+            variants += directed(toks, random.Random(seed ^ 0xd1e))
             for j, (kind, tl) in enumerate(variants):
                 if kind != 'valid' and flagged_qualifier_region(tl):
                     acc.count('skipped_flagged_qualifier_region')
@@ -425,7 +481,7 @@ def worker(ctx):
                 for v in vs[:2]:
                     v['text'] = text[:2500]
                     v['corruption'] = kind
-                    acc.violation({'case_seed': seed, 'variant': j}, v)
+                    acc.violation({'case_seed': seed, 'variant': j, 'tier': ctx.tier}, v)
                 if i < 2 and j == 1:
                     acc.sample({'corruption': kind, 'accepted': accepted, 'text': text[:600]})
             # script sample: one valid + one corrupted per model until the quota is used
@@ -461,9 +517,10 @@ def replay(case, ctx):
     toks = render.tokens(mod)
     r = random.Random(case['case_seed'] ^ 0x5eed)
     variants = [('valid', [x for x, _ in toks])]
-    for j in range(30):
+    for j in range(plan(case.get('tier', ctx.tier), 0)['corruptions']):
         variants.append(corrupt(toks, r))
-    kind, tl = variants[case.get('variant', 0)]
+    variants += directed(toks, random.Random(case['case_seed'] ^ 0xd1e))
+    kind, tl = variants[min(case.get('variant', 0), len(variants) - 1)]
     text = ' '.join(tl) + '\n'
     sb = Sandbox()
     try:
